@@ -722,7 +722,24 @@ def one_delta_per_commit(facts, rep):
                             bad.append("`%s` at %s" % (m, r.obj.get("ln")))
                         work.append(r.obj["args"][0])
                     elif r.kind == "agg" and str(r.what).endswith("Option::None") and not r.fields:
-                        bad.append("an explicit None at bb%d" % r.bb)
+                        # `match self.rollback_delta.take() { Some(b) => Some(b.finalize(..)), None => None }`: a None that is
+                        # only reachable through the None edge of a branch on the builder's own variant is the builder's None
+                        own = False
+                        for sb in range(body.n):
+                            st = body.term(sb)
+                            if st["k"] != "switch" or body.is_cleanup(sb):
+                                continue
+                            rs = trace(body, st["d"])
+                            if not any("<discr>" in x.fields and (("rollback_delta" in x.fields and x.kind == "param") or (x.kind in ("call", "via") and str(x.what).endswith("Option::take") and x.obj is not None and any("rollback_delta" in y.fields for y in trace(body, x.obj["args"][0])))) for x in rs):
+                                continue
+                            none_e = [tb for (v, tb) in st["vals"] if str(v) == "0"]
+                            some_e = [tb for (v, tb) in st["vals"] if str(v) != "0"] + ([st["else"]] if body.term(st["else"])["k"] != "unreachable" else [])
+                            if not none_e:
+                                none_e, some_e = [st["else"]], [tb for (v, tb) in st["vals"]]
+                            if r.bb in body.reachable(none_e) and r.bb not in body.reachable([e for e in some_e if e not in none_e]):
+                                own = True
+                        if not own:
+                            bad.append("an explicit None at bb%d" % r.bb)
                     elif r.kind == "call" and r.obj is not None and r.obj.get("args"):
                         work.append(r.obj["args"][0])
             if not reached:
